@@ -252,14 +252,20 @@ def listSvc (verb : Nat) (path : String) : Service :=
 def listRq (verb : Nat) (path : String) : Request :=
   { files := [{ name := "a.proto".toList, generate := true, messages := [listReq], services := [listSvc verb path] }] }
 
-/-- **witness** (finding `ts_server_module_does_not_load`): the canonical REST route
-`GET /items/{item_id}/parts?page=` is accepted by every plugin; the TS server module it is
-emitted into declares `const url` twice and cannot be imported. Without the path variable (or
-with POST) the model predicts a loadable module. -/
-theorem w_ts_server_module_does_not_load :
-    Build.tsServerDefects (listRq 1 "/items/{item_id}/parts") = ["ts_server_duplicate_const_url"] ∧
-    Build.tsServerDefects (listRq 2 "/items/{item_id}/parts") = [] ∧
-    Build.tsServerDefects (listRq 1 "/items") = [] := by decide
+/-- **the route body declares every identifier once** (all sixteen shapes of a route: with /
+without headers, path variables, query parameters, body verb), so the emitted `*_server.ts`
+parses; the correspondence imports every emitted module on every run. -/
+theorem route_consts_distinct : ∀ h p q b : Bool, (routeConsts h p q b).Nodup := by decide
+
+/-- **regression witness** (finding `ts_server_module_does_not_load`, fixed by 41e5e05): before
+the fix the canonical REST route `GET /items/{item_id}/parts?page=` — accepted by every plugin —
+declared `const url` twice, a SyntaxError at import that took every RPC of the file with it;
+the current template is predicted loadable for the same schema. -/
+theorem w_ts_server_module_loads_regression :
+    ¬ (routeConstsBeforeFix false true true false).Nodup ∧
+    Build.tsServerDefectsBeforeFix (listRq 1 "/items/{item_id}/parts") = ["ts_server_duplicate_const_url"] ∧
+    Build.tsServerDefects (listRq 1 "/items/{item_id}/parts") = [] ∧
+    (routeConsts false true true false).Nodup := by decide
 
 /-! ## Header option helpers -/
 
@@ -400,12 +406,25 @@ theorem unset_type_format_checked :
 
 /-! ## Body verbs: URL-bound fields against the body -/
 
-/-- the emitted Go middleware decodes the body after binding path and query (regenerated order):
-with a non-empty body the URL-bound fields come from the body (C02 `body_resets_url_fields`),
-while the emitted TS route body assigns the path parameters AFTER `req.json()`. This is why the
-two servers differ on a body that omits or contradicts the URL-bound fields
-(`servers_differ:body_without_url_fields`, `servers_differ:body_conflicts_with_url`). -/
-theorem go_body_step_last : (Bind.relevant Bind.currentOrder).getLast? = some Bind.Step.body := by decide
+/-- the emitted Go middleware decodes the body FIRST and binds path and query parameters
+afterwards (regenerated order, since 9fd0fc7), and the emitted TS route body assigns the path
+parameters after `req.json()`: on both servers the URL's value of a PATH variable wins over
+whatever the body says (or does not say). The recorded classes
+`servers_differ:body_without_url_fields` / `servers_differ:body_conflicts_with_url` are fixed. -/
+theorem go_url_steps_after_body : Bind.relevant Bind.currentOrder = [Bind.Step.body, Bind.Step.path, Bind.Step.query] := by decide
+
+/-- **witness** (finding `servers_differ:query_parameter_on_body_verb`): for POST / PUT / PATCH the
+Go server binds a query-annotated field from the URL when the parameter is there (overwriting
+the body's value), the TS server never reads the query string of such a route: `?page=5` with a
+body saying `page: 3` reaches the Go handler as 5 and the TS handler as 3; without `page` in the
+body the TS handler sees no value at all. With the parameter absent from the URL both keep the
+body's value, which is what the generated clients send. -/
+theorem w_query_on_body_verb :
+    goRouteQueryField .number (lit "page") (lit "page=5") (some (.numOf (lit "3"))) = some (.numOf (lit "5")) ∧
+    tsRouteQueryField true .number (lit "page") (lit "page=5") (some (.numOf (lit "3"))) = some (.numOf (lit "3")) ∧
+    tsRouteQueryField true .number (lit "page") (lit "page=5") none = none ∧
+    goRouteQueryField .number (lit "page") [] (some (.numOf (lit "3"))) = tsRouteQueryField true .number (lit "page") [] (some (.numOf (lit "3"))) ∧
+    tsRouteQueryField false .number (lit "page") (lit "page=5") none = some (.numOf (lit "5")) := by decide
 
 /-! ## Non-vacuity -/
 
